@@ -558,11 +558,6 @@ def judge(ctx, subj, cr, rs):
 _CACHE = {"obs": 0}
 
 
-def crash_points(ctx, subj, thorough):
-    pts = list(range(subj.total + 1))
-    return pts
-
-
 def run_subject(ctx, desc, optimize, with_model, budget_deadline, procs_left, pending):
     """All crash points of one program.  Returns number of crash points evaluated; requests for the model are
     appended to `pending` (answered in one driver run per batch, see `flush`)."""
